@@ -107,7 +107,9 @@ def finish(prop, tier, seed, tasks, results, wall, known):
 
     # ---- replay of fresh counterexamples
     violations = []
-    replay_dir = ROOT / "evidence" / "replay"
+    import os
+    evdir = Path(os.environ.get("VERIF_EVIDENCE_DIR", str(ROOT / "evidence")))
+    replay_dir = evdir / "replay"
     replay_dir.mkdir(parents=True, exist_ok=True)
     task_by_name = {t.name: t for t in tasks}
     for name in sorted(set(unmatched)):
@@ -202,8 +204,8 @@ def finish(prop, tier, seed, tasks, results, wall, known):
         "wall_s": round(wall, 2),
         "violations": len(violations),
     }
-    (ROOT / "evidence").mkdir(exist_ok=True)
-    (ROOT / "evidence" / f"{prop}.json").write_text(json.dumps(ev, indent=1, default=str))
+    evdir.mkdir(parents=True, exist_ok=True)
+    (evdir / f"{prop}.json").write_text(json.dumps(ev, indent=1, default=str))
 
     # ---- report
     print(f"[{prop}] tier={tier} tasks={len(results)} paths={ev['coverage']['paths']} obligations={named_total} "
